@@ -49,16 +49,8 @@ const (
 	selfBalance   = 0x21
 )
 
-// tokens whose balances are dumped for every address
-var tokenIDs = []common.Address{aTkn, aSmall01, aSmall20, aSmallFF, aIssueLib, aIssuer, aSpinner, aSelf}
-
-// storage slots dumped for every address
-var slotIDs = []common.Hash{common.BytesToHash([]byte{0}), common.BytesToHash([]byte{1}), common.BytesToHash([]byte{0x20}), common.BytesToHash([]byte{0xff}),
-	common.BytesToHash(max256)}
-
-// watched addresses (dump order)
-var watched = []common.Address{aOrigin, aSelf, aReverter, aInvalid, aStorer, aSuicider, aIssueLib, aIssuer, aSpinner, aCreator, aTokUser, aEmpty, aTkn,
-	aSmall00, aSmall01, aSmall02, aSmall03, aSmall04, aSmall20, aSmallFF}
+// storage slots used by the fixture
+var slotIDs = []common.Hash{common.BytesToHash([]byte{0}), common.BytesToHash([]byte{1}), common.BytesToHash([]byte{0x20}), common.BytesToHash([]byte{0xff})}
 
 var addrName = map[common.Address]string{
 	aOrigin: "origin", aSelf: "self", aReverter: "reverter", aInvalid: "invalider", aStorer: "storer", aSuicider: "suicider",
